@@ -20,13 +20,15 @@ package agreement
 //   rezero            -> clock zero := now
 //   crash-restart     -> volatile state dropped; decode(disk) or fresh player at ledger.NextRound(),
 //                        exactly the two branches of Service.mainLoop, then the restored pending
-//                        actions are executed again (persistRouter/persistStatus/persistActions are
-//                        zero at that point, as in Service)
+//                        actions are executed again; whether persistRouter/persistStatus/persistActions
+//                        hold the restored values at that point is PROBED on the real Service.mainLoop
+//                        (eagrProbeRestorePath), not assumed
 
 import (
 	"crypto/sha256"
 	"encoding/binary"
 	"fmt"
+	"os"
 	"runtime/debug"
 	"sort"
 	"strings"
@@ -36,6 +38,7 @@ import (
 	"github.com/algorand/go-algorand/crypto"
 	"github.com/algorand/go-algorand/data/basics"
 	"github.com/algorand/go-algorand/protocol"
+	"github.com/algorand/go-algorand/util/db"
 	"github.com/algorand/go-algorand/util/timers"
 )
 
@@ -78,6 +81,7 @@ type eagrCfg struct {
 	ordered      bool         // delivery order (sequence numbers) is part of the canonical state (lock-step explorer)
 	trackValues  bool         // keep the set of proposal values seen on the network (adversary alphabet)
 	trackVotes   bool         // C02(i): remember every vote released by each account (ghost state, part of the key)
+	restoreInitsPersist bool  // Service.mainLoop initialises persistRouter/Status/Actions on its restore path (probed on the real code)
 }
 
 type eagrLoopItem struct {
@@ -802,6 +806,11 @@ func (n *eagrNode) restart(s *eagrSys, out *eagrOut) {
 			n.zero = clock.(eagrClock).zero
 			ok = true
 			s.stats.restoresFromDisk++
+			if s.cfg.restoreInitsPersist {
+				// Service.mainLoop (restore path): persistRouter/persistStatus/persistActions = restored values
+				n.persistFresh = true
+				n.persistA = a
+			}
 		} else if err == nil && p.Round == 0 && len(a) == 0 && len(n.released) > 0 {
 			n.lostState = true
 		}
@@ -1033,4 +1042,75 @@ func (s *eagrSys) key() [16]byte {
 	var k [16]byte
 	copy(k[:], h[:16])
 	return k
+}
+
+// ---------------------------------------------------------------------------------------------
+// probe of the REAL Service.mainLoop restore path
+//
+// The shell re-implements the glue around the state machine, with one exception that matters for
+// C02: whether a restarted node, when it re-executes a restored attest action, persists the
+// restored state or an empty one depends on Service.mainLoop initialising persistRouter /
+// persistStatus / persistActions on its restore path (fixed upstream of this check in /repo; the
+// unfixed code overwrote the crash database with an empty state). Instead of hard-coding either
+// behaviour the shell asks the real code: the real mainLoop is run once on an in-memory crash
+// database holding a snapshot taken by the shell, fed no input, and the three fields are inspected.
+
+var eagrProbeOnce sync.Once
+var eagrRestoreInitsPersist = true // assumption when the probe cannot run
+var eagrProbeNote = "not run"
+
+func eagrProbeRestorePath(env *eagrEnv) (res bool, note string) {
+	eagrProbeOnce.Do(func() {
+		defer func() {
+			if r := recover(); r != nil {
+				eagrProbeNote = fmt.Sprintf("probe panicked (%v); assuming the restore path initialises the persisted fields", r)
+			}
+		}()
+		// a real snapshot: node 0 of a 3-node system after its soft vote was attested
+		cfg := &eagrCfg{env: env, nNodes: 3, atomicVerify: true, atomicLoop: true, flightSet: true, maxRound: 1, maxPeriod: 1}
+		s := eagrNewSys(cfg)
+		out := &eagrOut{}
+		s.boot(out)
+		s.nodes[0].timeout(s, false, out)
+		n := s.nodes[0]
+		if n.disk == nil {
+			eagrProbeNote = "probe: no snapshot produced; assuming the restore path initialises the persisted fields"
+			return
+		}
+		acc, err := db.MakeAccessor(fmt.Sprintf("verif-eagr-probe-%d", os.Getpid()), false, true)
+		if err != nil {
+			eagrProbeNote = fmt.Sprintf("probe: cannot open an in-memory crash database (%v); assuming initialised", err)
+			return
+		}
+		defer acc.Close()
+		log := serviceLogger{env.log}
+		_, _ = restore(log, acc) // installs the Service table
+		if err := persist(log, acc, n.p.Round, n.p.Period, n.p.Step, n.disk); err != nil {
+			eagrProbeNote = fmt.Sprintf("probe: cannot write the crash state (%v); assuming initialised", err)
+			return
+		}
+		svc := &Service{}
+		svc.parameters = parameters(Parameters{Ledger: n.led, Clock: eagrClock{}, Accessor: acc})
+		svc.log = log
+		svc.tracer = &tracer{log: log}
+		input := make(chan externalEvent)
+		output := make(chan []action)
+		ready := make(chan externalDemuxSignals)
+		svc.wg.Add(1)
+		go svc.mainLoop(input, output, ready)
+		acts := <-output
+		<-ready
+		close(input)
+		for range output {
+		}
+		svc.wg.Wait()
+		if !persistent(acts) {
+			eagrProbeNote = "probe: the restored actions contain no attest; assuming initialised"
+			return
+		}
+		eagrRestoreInitsPersist = svc.persistStatus.Round == n.p.Round && persistent(svc.persistActions)
+		eagrProbeNote = fmt.Sprintf("real Service.mainLoop run on a crash state of round %d with a pending attest: persistStatus.Round=%d, %d persisted action(s) => restore path initialises the persisted fields: %v",
+			n.p.Round, svc.persistStatus.Round, len(svc.persistActions), eagrRestoreInitsPersist)
+	})
+	return eagrRestoreInitsPersist, eagrProbeNote
 }
